@@ -49,6 +49,20 @@ def quoter_outputs(prog):
                     out.update(const_val(v))
                 elif is_const(v, "char"):
                     out.add(const_val(v))
+    # characters handed to a private character-map helper (`curve(part, '‘', '“')`), in the quoter or in a closure of it
+    for k_ in [q] + list(prog.closures_of(q)):
+        kb_ = qb if k_ == q else prog.body(k_)
+        for (bb, t) in kb_.calls():
+            if callee_name(t) not in prog.fns:
+                continue
+            ops_ = list(t["args"])
+            for a_ in ops_:
+                v = strip_refs(kb_.expr_operand(a_))
+                vs_ = list(v.a[1]) if (v.k == "agg" and v.a[0] == "tuple") else [v]
+                for x_ in vs_:
+                    x_ = strip_refs(x_)
+                    if is_const(x_, "char"):
+                        out.add(const_val(x_))
     for ck in prog.closures_of(q) + [c for g in (qb.fn.get("inlined") or []) for c in prog.closures_of(g)]:
         cb = prog.body(ck)
         if cb.locals[0]["ty"] != "char":
@@ -57,6 +71,235 @@ def quoter_outputs(prog):
             if st["k"] == "assign" and st["rv"]["k"] == "use" and st["rv"]["op"]["k"] == "const" and st["rv"]["op"].get("char") is not None:
                 out.add(st["rv"]["op"]["char"])
     return out
+
+
+_ADAPTORS = ("::skip", "::take", "::filter", "::rev", "::step_by", "::skip_while", "::take_while", "::chain", "::filter_map", "::zip", "::peekable", "::scan", "::flat_map")
+
+
+def _walks_every_char(b, d, depth=0):
+    """No iterator adaptor stands between `chars()` and the loop / map (`text.chars().skip(1)` does not visit every character)."""
+    for x in d.walk():
+        if x.k == "call" and x.a[0].endswith(_ADAPTORS):
+            return False
+    if depth < 3:
+        for x in d.walk():
+            if x.k == "local":
+                for d_ in b.defs.get(x.a[0], []):
+                    if d_[2] == "assign" and not _walks_every_char(b, b.expr_rvalue(d_[3]["rv"]), depth + 1):
+                        return False
+                    if d_[2] == "call" and callee_name(d_[3]).endswith(_ADAPTORS):
+                        return False
+    return True
+
+
+def _chars_arg(b, d, depth=0):
+    """The parameter whose characters are iterated (`for ch in text.chars()`): its index, or None."""
+    for x in d.walk():
+        if x.k == "call" and x.a[0].endswith("str>::chars"):
+            src = strip_refs(x.a[1][0])
+            while src.k == "call" and src.a[0].endswith("::deref") and len(src.a[1]) == 1:
+                src = strip_refs(src.a[1][0])
+            if src.k == "arg":
+                return src.a[0]
+    if depth < 3:
+        for x in d.walk():
+            if x.k == "local":
+                for d_ in b.defs.get(x.a[0], []):
+                    if d_[2] == "assign":
+                        r = _chars_arg(b, b.expr_rvalue(d_[3]["rv"]), depth + 1)
+                        if r:
+                            return r
+    return None
+
+
+def charmap_helper(prog, hk):
+    """A private function or closure that rebuilds a text character by character — `fn curve(text: &str, single: char, double: char) -> String`
+    written as a loop of pushes or as `text.chars().map(|ch| …).collect()` — summarised as (index of the text parameter,
+    {code point: ('const', c) | ('param', i) | ('other', repr)}, every other character kept?); None when it is not of that shape."""
+    from engine.analyses import sym_paths, PathLimit, subst_upvars
+    f = prog.fns.get(hk)
+    if f is None:
+        return None
+    hb = prog.body(hk)
+    if not (f.get("output") or hb.locals[0]["ty"] or "").startswith("std::string::String"):
+        return None
+
+    def classify(val, ch_e):
+        val = strip_refs(peel_conv(val))
+        if is_const(val, "char"):
+            return ("const", const_val(val))
+        if val.k == "arg":
+            return ("param", val.a[0])
+        if ch_e is not None and val == ch_e:
+            return ("same",)
+        return ("other", repr(val)[:80])
+    # (i) a loop of pushes under a match on the character
+    for s_ in hb.rblocks:
+        t = hb.blocks[s_]["term"]
+        if t["k"] != "switch" or t["discr_ty"] != "char":
+            continue
+        d = strip_refs(hb.expr_operand(t["discr"]))
+        src = _chars_arg(hb, d)
+        if src is None or not _walks_every_char(hb, d):
+            return None
+        table, dests = {}, set()
+        for (node, vals, tgt) in hb.switch_edges(s_):
+            ch = chain(hb, tgt)
+            hit = None
+            for k_, cb_ in enumerate(ch):
+                tt = hb.blocks[cb_]["term"]
+                if tt["k"] == "call" and callee_name(tt).endswith("String::push"):
+                    env = hb.eval_path(ch[:k_ + 1], upto=(cb_, len(hb.blocks[cb_]["stmts"])))
+                    hit = (classify(hb.expr_operand(tt["args"][1], 0, env), d), _ref_target_local(hb, tt["args"][0]))
+                    break
+                if tt["k"] == "switch":
+                    break
+            if hit is None:
+                return None
+            dests.add(hit[1])
+            if vals == "otherwise":
+                table["otherwise"] = hit[0]
+            else:
+                for v in vals:
+                    table[v] = hit[0]
+        if len(dests) != 1 or None in dests:
+            return None
+        dest = next(iter(dests))
+        returned = set()
+        for d_ in hb.defs.get(0, []):
+            if d_[2] == "assign":
+                returned |= _moved_locals(hb, d_[3]["rv"])
+        if dest not in returned:
+            return None
+        other_pushes = [bb for (bb, tt) in hb.calls() if callee_name(tt).endswith(("String::push", "String::push_str", "String::insert", "String::insert_str"))
+                        and _ref_target_local(hb, tt["args"][0]) == dest]
+        n_in_match = len({cb_ for (node, vals, tgt) in hb.switch_edges(s_) for cb_ in chain(hb, tgt)
+                          if hb.blocks[cb_]["term"]["k"] == "call" and callee_name(hb.blocks[cb_]["term"]).endswith("String::push")})
+        if len(set(other_pushes)) != n_in_match:
+            return None                     # something else is written into the rebuilt text
+        return src, {k: v for k, v in table.items() if k != "otherwise"}, table.get("otherwise") == ("same",)
+    # (ii) text.chars().map(|ch| …).collect()
+    ret = strip_refs(peel_conv(hb.expr_local(0)))
+    if ret.k == "call" and ret.a[0].endswith("::collect") and ret.a[1]:
+        mp = strip_refs(ret.a[1][0])
+        if mp.k == "call" and mp.a[0].endswith("Iterator::map") and len(mp.a[1]) == 2:
+            src = _chars_arg(hb, mp.a[1][0])
+            clo = strip_refs(mp.a[1][1])
+            if not (strip_refs(mp.a[1][0]).k == "call" and strip_refs(mp.a[1][0]).a[0].endswith("str>::chars")):
+                return None                 # an adaptor between chars() and map(): not every character is visited
+            if src is None or not (clo.k == "agg" and str(clo.a[0]).startswith("closure:")):
+                return None
+            ck = clo.a[0][8:]
+            cb = prog.body(ck)
+            try:
+                paths = sym_paths(cb, 0, 64)
+            except PathLimit:
+                return None
+            table = {}
+            for path, env, conds in paths:
+                sel = None
+                for (dd, vals, allv, ty, bb) in conds:
+                    dd = strip_refs(dd)
+                    if not (dd.k == "arg" and dd.a[0] == 2):
+                        return None
+                    sel = vals
+                r_ = env.get(0)
+                if r_ is None:
+                    return None
+                r_ = strip_refs(peel_conv(r_))
+                if r_.k == "arg" and r_.a[0] == 2:
+                    v = ("same",)
+                elif is_const(r_, "char"):
+                    v = ("const", const_val(r_))
+                else:
+                    v = classify(subst_upvars(prog, ck, r_), None)
+                if sel is None or sel == "otherwise":
+                    table["otherwise"] = v
+                else:
+                    for x_ in sel:
+                        table[x_] = v
+            return src, {k: v for k, v in table.items() if k != "otherwise"}, table.get("otherwise") == ("same",)
+    return None
+
+
+def helper_call_map(prog, body, e, part_of):
+    """`e` = a call of a character-map helper: (source part, {code point: replacement character}, others kept?) with the helper's
+    character parameters bound to the call's arguments; `part_of(E)` names the part an argument expression stands for."""
+    e = strip_refs(peel_conv(e))
+    if e.k != "call" or e.a[0] not in prog.fns:
+        return None
+    hk = e.a[0]
+    summ = charmap_helper(prog, hk)
+    if summ is None:
+        return None
+    src, table, keeps = summ
+    if prog.fns[hk].get("kind") == "Closure":
+        tup = strip_refs(e.a[1][1]) if len(e.a[1]) == 2 else None
+        if tup is None or tup.k != "agg" or tup.a[0] != "tuple":
+            return None
+        actual = {i + 2: a for i, a in enumerate(tup.a[1])}
+    else:
+        actual = {i + 1: a for i, a in enumerate(e.a[1])}
+    if src not in actual:
+        return None
+    out = {}
+    for cp, v in table.items():
+        if v[0] == "const":
+            out[cp] = v[1]
+        elif v[0] == "param" and v[1] in actual and is_const(strip_refs(actual[v[1]]), "char"):
+            out[cp] = const_val(strip_refs(actual[v[1]]))
+        else:
+            out[cp] = repr(v)
+    return part_of(actual[src]), out, keeps
+
+
+
+def _rebuild_method(prog, mk):
+    """A method of the split value `fn(&mut self, f)` that calls `f(preceding, trailing)` once and stores the returned pair as the new
+    preceding / trailing parts and writes nothing else: {'params': {callback parameter index: part}, 'results': {pair index: part}}; else None."""
+    from engine.analyses import direct_writes
+    f = prog.fns[mk]
+    if len(f.get("inputs") or []) != 2 or not f["inputs"][0].startswith("&mut "):
+        return None
+    b = prog.body(mk)
+    writes = [w for w in direct_writes(b) if w["root"].k == "arg" and w["root"].a[0] == 1]
+    results, call_e = {}, None
+    for w in writes:
+        if w["op"] != "assign" or len(w["fields"]) != 1 or w["fields"][0] not in ("preceding", "trailing"):
+            return None
+        st = b.blocks[w["bb"]]["stmts"][w["idx"]]
+        v = strip_refs(peel_conv(b.expr_rvalue(st["rv"])))
+        while v.k == "agg" and len(v.a[1]) == 1 and str(v.a[0]).endswith("Cow::Owned"):
+            v = strip_refs(peel_conv(v.a[1][0]))
+        if not (v.k == "field" and str(v.a[1]) in ("0", "1")):
+            return None
+        c = strip_refs(v.a[0])
+        if c.k != "call" or not c.a[0].endswith(("FnOnce>::call_once", "FnMut>::call_mut", "Fn>::call")) and "call" not in c.a[0].rsplit("::", 1)[-1]:
+            return None
+        if call_e is not None and c != call_e:
+            return None
+        call_e = c
+        if w["fields"][0] in results.values():
+            return None
+        results[int(str(v.a[1]))] = w["fields"][0]
+    if call_e is None or sorted(results.values()) != ["preceding", "trailing"]:
+        return None
+    a0 = strip_refs(call_e.a[1][0])
+    tup = strip_refs(call_e.a[1][1]) if len(call_e.a[1]) == 2 else None
+    if not (a0.k == "arg" and a0.a[0] == 2) or tup is None or tup.k != "agg" or tup.a[0] != "tuple" or len(tup.a[1]) != 2:
+        return None
+    params = {}
+    for i, a in enumerate(tup.a[1]):
+        x = strip_refs(peel_conv(a))
+        while x.k == "call" and x.a[0].endswith("::deref") and len(x.a[1]) == 1:
+            x = strip_refs(x.a[1][0])
+        r_, f_ = apath(x)
+        if not (r_.k == "arg" and r_.a[0] == 1 and len(f_) == 1 and f_[0] in ("preceding", "trailing")):
+            return None
+        params[i + 2] = f_[0]
+    if sorted(params.values()) != ["preceding", "trailing"]:
+        return None
+    return {"params": params, "results": results}
 
 
 def split_fn(prog):
@@ -111,6 +354,24 @@ def run(ctx):
         if s["k"] == "assign" and s["place"]["l"] == 1 and s["place"]["p"] and "f" in (s["place"]["p"][0] if isinstance(s["place"]["p"][0], dict) else {}):
             fname = s["place"]["p"][0].get("n")
             wblocks.setdefault(fname, set()).add(i)
+    map_form = None
+    if not wblocks:
+        # the two parts rebuilt through the split value's own rebuilding method: `splitted.map(|preceding, trailing| (.., ..))`
+        for (bb_, t_) in qb.calls():
+            mk_ = callee_name(t_)
+            mf_ = prog.fns.get(mk_)
+            if not mf_ or not ((mf_.get("impl") or {}).get("self") or "").startswith(SPLIT_TY) or len(t_["args"]) != 2:
+                continue
+            clo_ = strip_refs(qb.expr_operand(t_["args"][1]))
+            if not (clo_.k == "agg" and str(clo_.a[0]).startswith("closure:")) or _ref_target_local(qb, t_["args"][0]) != 1:
+                continue
+            sem_ = _rebuild_method(prog, mk_)
+            if sem_ is None:
+                r1.undecidable("frame", "the quoter hands the split value to %s, which is not shown to set the two wrapping parts from its callback's pair" % mk_.split("::")[-1],
+                               site_of(qb, bb_))
+                continue
+            map_form = (bb_, clo_.a[0][8:], sem_)
+            wblocks = {"preceding": {bb_}, "trailing": {bb_}}
     written = set(wblocks)
     if written == {"preceding", "trailing"}:
         r1.ok("frame", "writes exactly {preceding, trailing}")
@@ -168,7 +429,7 @@ def run(ctx):
         table = {}
         dest = None
         dest_local = None
-        okshape = True
+        okshape = _walks_every_char(qb, d)
         for (node, vals, tgt) in qb.switch_edges(s):
             ch = chain(qb, tgt)
             pushes = []
@@ -240,9 +501,61 @@ def run(ctx):
                         if dest_local in _moved_locals(qb, st["rv"]):
                             field = fname
         maps[bb_] = (_chars_source(qb, mp_.a[1][0], acc), field, table, okshape)
+    # the same two maps made by one private helper called once per part (`curve(part, '‘', '“')`), handed over directly or through the
+    # split value's rebuilding method
+    def _as_table(hm):
+        src_, out_, keeps_ = hm
+        tb_ = dict(out_)
+        tb_["otherwise"] = "same" if keeps_ else "changed"
+        return src_, tb_
+    have_ = {m_[1] for m_ in maps.values() if m_[1]}
+    if map_form is not None:
+        bb_, ck_, sem_ = map_form
+        cb_ = prog.body(ck_)
+        ret_ = strip_refs(peel_conv(cb_.expr_local(0)))
+
+        def part_of2(e_):
+            e_ = strip_refs(peel_conv(e_))
+            return sem_["params"].get(e_.a[0]) if e_.k == "arg" else None
+        if ret_.k == "agg" and ret_.a[0] == "tuple" and len(ret_.a[1]) == 2:
+            for idx_, comp_ in enumerate(ret_.a[1]):
+                fname = sem_["results"].get(idx_)
+                hm = helper_call_map(prog, cb_, comp_, part_of2)
+                if fname and hm is not None:
+                    src_, tb_ = _as_table(hm)
+                    maps[-(idx_ + 1)] = (src_, fname, tb_, True)
+                elif fname:
+                    maps[-(idx_ + 1)] = (None, fname, {}, False)
+    else:
+        for fname, blks in sorted(wblocks.items()):
+            if fname in have_:
+                continue
+            for (i, j, st) in qb.stmts():
+                if not (i in blks and st["k"] == "assign" and st["place"]["l"] == 1 and st["place"]["p"][0].get("n") == fname):
+                    continue
+                for l_ in sorted(_moved_locals(qb, st["rv"])):
+                    for d_ in qb.defs.get(l_, []):
+                        if d_[2] != "call":
+                            continue
+                        e_ = E("call", callee_name(d_[3]), tuple(qb.expr_operand(a_) for a_ in d_[3]["args"]), d_[0], t=d_[3])
+
+                        def part_of1(x_):
+                            x_ = strip_refs(peel_conv(x_))
+                            while x_.k == "call" and x_.a[0].endswith("::deref") and len(x_.a[1]) == 1:
+                                x_ = strip_refs(x_.a[1][0])
+                            if x_.k == "call" and x_.a[0] in acc:
+                                return acc[x_.a[0]]
+                            r__, f__ = apath(x_)
+                            return f__[-1] if f__ else None
+                        hm = helper_call_map(prog, qb, e_, part_of1)
+                        if hm is not None:
+                            src_, tb_ = _as_table(hm)
+                            maps[d_[0]] = (src_, fname, tb_, True)
     seen_fields = set()
     for s, (it_src, field, table, okshape) in sorted(maps.items()):
         key = "map:%s" % (field or "bb%d" % s)
+        if s < 0 and map_form is not None:
+            s = map_form[0]
         if not okshape or field is None:
             r1.undecidable(key, "cannot summarise the per-character match at bb%d as a table of pushes (source %s, dest %s)" % (s, it_src, field), site_of(qb, s))
             continue
